@@ -86,6 +86,9 @@ func main() {
 		}
 		os.Exit(1)
 	}
+	for _, f := range p.ExcludedFiles {
+		fmt.Printf("NOTE: not part of this build configuration: %s\n", f)
+	}
 	if *warm {
 		fmt.Printf("loaded %d packages, %d functions in %.1fs\n", len(p.Pkgs), len(p.Funcs), time.Since(start).Seconds())
 		return
